@@ -389,6 +389,19 @@ fn oracle(scn: &PubSub, g: &World, out: &Outcome, viol: &mut Vec<RViol>) {
             });
         }
     }
+    // shutdown is prompt whatever the publishers still have to say: after the channel closed the
+    // router may finish what it holds, not keep serving a backlog
+    if let Some(c) = out.closed_at {
+        let after = g.yielded.iter().filter(|(t, _, f)| *t > c && matches!(f, Frame::Message(_))).count();
+        let allowed = scn.pubs.len() + 1;
+        if scn.close && after > allowed {
+            viol.push(RViol {
+                prop: "C16",
+                clause: "pubsub:keeps-serving-after-close".into(),
+                msg: format!("after the registration channel closed the router still took {after} messages from its publishers (more than the {allowed} it may already be committed to): how long shutdown takes depends on the publishers' backlog"),
+            });
+        }
+    }
     if out.done.is_some() && out.closed_at.is_none() {
         viol.push(RViol {
             prop,
